@@ -42,7 +42,7 @@ type cbEvent struct {
 // callRec is what one call (Invoke or Stream) made observable.
 type callRec struct {
 	mu    sync.Mutex
-	execs map[int][][]string    // node index -> one entry per execution: payload tags received
+	execs map[int][][]string   // node index -> one entry per execution: payload tags received
 	cbs   map[string][]cbEvent // handler tag -> where it fired (OnStart / OnStartWithStreamInput)
 }
 
@@ -54,6 +54,9 @@ type Instance struct {
 	run  compose.Runnable[L, L]
 	mu   sync.Mutex
 	cur  *callRec
+	// epoch counts the cases run on this instance; it is part of every payload tag so that something
+	// left behind by an earlier case can never be mistaken for an option of the current call
+	epoch int
 }
 
 func (in *Instance) rec() *callRec {
@@ -190,7 +193,9 @@ func (b *cBuilder) model(k string, m model.BaseChatModel, o ...compose.GraphAddN
 func (b *cBuilder) tools(k string, t *compose.ToolsNode, o ...compose.GraphAddNodeOpt) {
 	b.c.AppendToolsNode(t, withKey(k, o)...)
 }
-func (b *cBuilder) pass(k string, o ...compose.GraphAddNodeOpt) { b.c.AppendPassthrough(withKey(k, o)...) }
+func (b *cBuilder) pass(k string, o ...compose.GraphAddNodeOpt) {
+	b.c.AppendPassthrough(withKey(k, o)...)
+}
 func (b *cBuilder) graph(k string, g compose.AnyGraph, o ...compose.GraphAddNodeOpt) {
 	b.c.AppendGraph(g, withKey(k, o)...)
 }
@@ -322,12 +327,12 @@ func newInstance(t *Tree) (*Instance, error) {
 }
 
 // makeOptions turns atoms into real compose.Option values; option i of call c carries the payload tag
-// "c<c>o<i>" (component options) or is a fresh handler reporting under that tag (callbacks).
+// "e<case number on this instance>.c<c>o<i>" (component options) or is a fresh handler reporting under that tag (callbacks).
 func (in *Instance) makeOptions(call int, set []Atom) ([]compose.Option, []string) {
 	opts := make([]compose.Option, len(set))
 	tags := make([]string, len(set))
 	for i, a := range set {
-		tag := fmt.Sprintf("c%do%d", call, i)
+		tag := fmt.Sprintf("e%d.c%do%d", in.epoch, call, i)
 		tags[i] = tag
 		var o compose.Option
 		switch a.T {
